@@ -69,32 +69,33 @@ theorem static_eq_dynamic_mem (loc : Locator) (modname other : Str) (m : Module)
 
 /-- non-vacuity: module docstring, decorated async function, class with static method, property
     with setter, nested class, definitions inside an executed `try` body, an imported name, a main
-    guard that is not executed. -/
+    guard that is not executed, with an `else` branch that is. -/
 def demoModule : Module :=
-  { doc := some ⟨"m".toList, 1⟩,
+  { doc := some ⟨"m".toList, 1, 1⟩,
     body :=
       .imp "join".toList <|
-      .func true "f".toList [.other] (some ⟨"d".toList, 3⟩) (.func false "inner".toList [] none .done .done) <|
-      .cls "C".toList [] (some ⟨"c".toList, 5⟩)
-        (.func false "s".toList [.name "staticmethod".toList] (some ⟨"sd".toList, 7⟩) .done <|
-         .func false "p".toList [.name "property".toList] (some ⟨"g".toList, 9⟩) .done <|
+      .func true "f".toList [.other] (some ⟨"d".toList, 3, 3⟩) (.func false "inner".toList [] none .done .done) <|
+      .cls "C".toList [] (some ⟨"c".toList, 5, 5⟩)
+        (.func false "s".toList [.name "staticmethod".toList] (some ⟨"sd".toList, 7, 7⟩) .done <|
+         .func false "p".toList [.name "property".toList] (some ⟨"g".toList, 9, 9⟩) .done <|
          .func false "p".toList [.attr "setter".toList] none .done <|
          .cls "N".toList [] none (.func false "x".toList [] none .done .done) .done) <|
       .comp true (.func false "g".toList [] none .done .done) <|
       .comp false (.other .done) <|
-      .ifs ⟨true, true, some "__name__".toList, some "__main__".toList⟩ false false
-        (.func false "hidden".toList [] none .done .done) .done .done }
+      .ifs { isCompare := true, op0Eq := true, leftId := some "__name__".toList, comp0 := some "__main__".toList } false true
+        (.func false "hidden".toList [] none .done .done)
+        (.func false "onimport".toList [] (some ⟨"o".toList, 30, 30⟩) .done .done) .done }
 
 example : InFragment "mod".toList "posixpath".toList demoModule := by decide
 example : dynamicCollect (execModule "mod".toList "posixpath".toList demoModule) =
     [("__doc__".toList, some "m".toList), ("f".toList, some "d".toList), ("C".toList, some "c".toList),
-     ("C.s".toList, some "sd".toList), ("C.p".toList, some "g".toList), ("g".toList, none)] := by decide
+     ("C.s".toList, some "sd".toList), ("C.p".toList, some "g".toList), ("g".toList, none), ("onimport".toList, some "o".toList)] := by decide
 
 /-- outside the fragment the two collectors really differ: a definition in a branch the import
     does not execute is seen by the static collector only -/
 def unexecuted : Module :=
   { doc := none,
-    body := .ifs ⟨false, false, none, none⟩ false true (.func false "f".toList [] none .done .done) .done .done }
+    body := .ifs { isCompare := false, op0Eq := false, leftId := none, comp0 := none } false true (.func false "f".toList [] none .done .done) .done .done }
 
 example : ¬ InFragment "mod".toList "o".toList unexecuted := by decide
 example : pairs (visitModule (fun _ => none) unexecuted) ≠
